@@ -1168,6 +1168,111 @@ class ValidModel(Comp):
         return None
 
 
+def strip_state(forest):
+    """the configuration part of an instance: the nodes whose schema node is (effectively) config true"""
+    out = []
+    for n in forest:
+        if not validenc._cfg(n.schema):
+            continue
+        c = n.clone()
+        c.children = strip_state(c.children)
+        out.append(c)
+    return out
+
+
+class ConfigModel(Comp):
+    """lyd_validate_module with LYD_VALIDATE_NO_STATE on parse-only trees vs ValidateImpl.impl_parse_validate_config /
+    RfcValid.rfc_valid_config (theorem C02_config_validate_iff_rfc_partial): valid instances of modules with config false
+    nodes as they are (state data present), their configuration part, and the configuration part after 1-3 mutations.
+    Cases outside the hypotheses of the theorem (configuration view not well formed, a mandatory choice below a config
+    false node, a tree that is not fresh) are dropped at generation time by asking the model."""
+    name = "configmodel"
+    driver = "t_valid"
+    slice = "valid"
+
+    def gen(self, rng, tier, scale=1.0):
+        pre = []
+        for i in range(self.n(tier, 500, 8000, scale)):
+            m, ig = valid_case(rng, userord=(i % 3 == 0), state=True)
+            ig.max_inst = 4
+            if i % 3 != 2:
+                # more config false nodes (a module the compiler then refuses is dropped below)
+                cands = [n for n in m.all_nodes() if validenc._cfg(n) and n.kind in ("leaf", "leaf-list", "container", "list")
+                         and not getattr(n, "is_key", False)]
+                for n in rng.sample(cands, min(len(cands), rng.choice([1, 1, 2]))):
+                    n.config = False
+            if i % 2 == 0:
+                # constraints ON config false nodes (what the option switches off): mandatory, min-elements
+                for n in m.all_nodes():
+                    if validenc._cfg(n):
+                        continue
+                    if n.kind == "leaf" and not n.is_key and n.default is None and rng.random() < 0.4:
+                        n.mandatory = True
+                    elif n.kind in ("leaf-list", "list") and not n.minel and not getattr(n, "defaults", None) and \
+                            (n.maxel is None or n.maxel >= 1) and rng.random() < 0.3:
+                        n.minel = 1
+                if not validenc.supported(m):
+                    continue
+            f = valid_instance(rng, m, ig)
+            if f is None:
+                continue
+            if i % 4 == 1:
+                g = clone_forest(f)
+            else:
+                g = strip_state(f)
+                for _ in range(rng.choice([0, 0, 1, 1, 2, 3]) if i % 4 else 0):
+                    rng.choice(MODEL_MUTS)(rng, m, ig, g)
+            if i % 8 == 5:
+                rng.choice(MODEL_MUTS)(rng, m, ig, g)
+            if rng.random() < 0.5:
+                g = shuffled(rng, g)
+            cmds = [("mod", hexs(m.yang())), ("parse", "t0", "x", PARSE_ONLY | PARSE_STRICT, 0, hexs(yanggen.to_xml(g))),
+                    ("dump", "t0", 1), ("val", "t0", VAL_NO_STATE, "m")]
+            pre.append((m, cmds))
+        outs = stage1([vline([], c) for _, c in pre])
+        L = []
+        for (m, cmds), out in zip(pre, outs):
+            r = out.split(" | ")
+            if len(r) != len(cmds) or r[0] != "0" or r[1] != "0":
+                continue                    # module or document rejected by the parser: not a case for the model
+            L.append(vline(validenc.fields(m) + ["#N 1", "#d " + r[2]], cmds))
+        mexe = vlib.build_model("valid")
+        mouts, _ = vlib.run_sharded(mexe, L, timeout=600)
+        return [l for l, o in zip(L, mouts) if o.startswith("N:") and o.endswith(":111")]
+
+    @staticmethod
+    def parts(line, out):
+        if out.startswith("N:"):
+            p = out.split(":")
+            if len(p) != 4:
+                return ["model:" + out[:100]]
+            if p[3] != "111":
+                return ["outside-hypotheses:" + p[3]]
+            if (p[1] == "0") != (p[2] == "1"):
+                return ["theorem-C02_config_validate_iff_rfc_partial-contradicted"]
+            return [p[1]]
+        r = out.split(" | ")
+        if len(r) != 4:
+            return ["protocol:" + out[:100]]
+        return [vclass(r[3])]
+
+    def norm(self, line, out):
+        return " | ".join(self.parts(line, out))
+
+    def witness(self, line, model_out, impl_out):
+        if impl_out.startswith("CRASH(") or impl_out == "TIMEOUT":
+            return (None, "crash: " + impl_out)
+        mi, ii = self.parts(line, model_out), self.parts(line, impl_out)
+        if len(mi) == 1 and len(ii) == 1 and mi != ii and model_out.startswith("N:"):
+            ok = model_out.split(":")[2]
+            if ii[0] == "0" and ok == "0":
+                return (None, "validation of configuration only (LYD_VALIDATE_NO_STATE) accepted a tree that is not a "
+                              "valid configuration (the model of the unchanged code answers %s)" % mi[0])
+            if ii[0] != "0" and ok == "1":
+                return (None, "validation of configuration only (LYD_VALIDATE_NO_STATE) rejected (%s) a valid configuration" % ii[0])
+        return None
+
+
 class IdrefModel(Comp):
     """identityref_check_base / lyplg_type_identity_isderived vs ValidateImpl.idref_check: random acyclic identity
     hierarchies over two modules, an identityref leaf with 1-3 bases, every identity as the value"""
